@@ -50,8 +50,12 @@ def rules(t):
             rg = strip(t.arg(c, 1))
             if not (isinstance(rg, tuple) and rg[0] == "aggr" and rg[1].endswith("Range")): r.bad(f"{name}|range", c, "slice() not called with start..end"); continue
             start, end = fmt(rg[3][0]), fmt(rg[3][1])
-            if not re.search(r"MulWithOverflow " + str(S) + r"\)\.0$", start): r.bad(f"{name}|start", c, f"slice start is {start[:60]}, expected k*SLICE_SIZE")
-            if not ("phi(" in end and "Bytes::len" in end and f"MulWithOverflow {S}" in end and "AddWithOverflow 1" in end): r.bad(f"{name}|end", c, f"slice end is {end[:80]}, expected (last ? len : (k+1)*SLICE_SIZE)")
+            indexed = re.search(r"MulWithOverflow " + str(S) + r"\)\.0$", start) is not None
+            # equivalent running-cursor form: start = previous end (a loop-carried local starting at 0), end = min(start + SLICE_SIZE, len)
+            sst, sen = stable(rg[3][0]), stable(rg[3][1])
+            cursor = sst.startswith("phi#") and "Ord::min" in sen and f"({sst} AddWithOverflow {S})" in sen and "Bytes::len" in sen
+            if not indexed and not cursor: r.bad(f"{name}|start", c, f"slice start is {start[:60]}, expected k*SLICE_SIZE")
+            if not cursor and not ("phi(" in end and "Bytes::len" in end and f"MulWithOverflow {S}" in end and "AddWithOverflow 1" in end): r.bad(f"{name}|end", c, f"slice end is {end[:80]}, expected (last ? len : (k+1)*SLICE_SIZE)")
         for s in t.aggrs("renet::packet::Slice", None, f):
             n = fmt(t.field_of_aggr(s, "num_slices"))
             if "div_ceil" not in n and "num_slices" not in n: r.bad(f"{name}|num_slices", s, f"num_slices is {n[:50]}, not ceil(len / SLICE_SIZE)")
@@ -102,6 +106,7 @@ def rules(t):
         f = t.fn(name)
         for fld in ("slices", "slices_last_received"):
             for c in t.effects(fld, {"contains_key", "entry", "remove", "insert"}, f):
+                if "VacantEntry" in callee_name(c.node) or "OccupiedEntry" in callee_name(c.node): continue   # key given to entry(key), checked there
                 r.site(c, method_of(callee_name(c.node)))
                 if not re.search(r"P2\(slice\)\.message_id$", fmt(t.arg(c, 1))): r.bad(f"{name}|{fld}|{method_of(callee_name(c.node))}", c, f"{fld} accessed with key {fmt(t.arg(c,1))[:40]}, not the slice's message id")
         for c in t.calls(r"SliceConstructor::process_slice$", f):
